@@ -71,6 +71,8 @@ where
     loop {
         // Drop the future if the phase has transitioned to `Wind-down`.
         if state & CLOSED == CLOSED {
+            #[cfg(nexosim_verif)]
+            crate::verif::probe(crate::verif::Probe::WindDownCancel);
             cancel::<F, S, T>(ptr);
 
             return;
@@ -207,6 +209,8 @@ where
 
             return;
         }
+        #[cfg(nexosim_verif)]
+        crate::verif::probe(crate::verif::Probe::RepollAfterWake);
     }
 }
 
